@@ -644,9 +644,14 @@ class PVLParser(object):
         ``set`` objects are non-hashable, they cannot be members of a set,
         however, ``frozenset`` objects can.
         """
-        return frozenset(
-            self._parse_set_seq(self.grammar.set_delimiters, tokens)
-        )
+        members = self._parse_set_seq(self.grammar.set_delimiters, tokens)
+        try:
+            return frozenset(members)
+        except TypeError as err:
+            # e.g. a PVL Sequence (a list) cannot be a member of a frozenset
+            tokens.throw(
+                ValueError, f"A PVL Set contained an unhashable member: {err}"
+            )
 
     def parse_sequence(self, tokens: abc.Generator) -> list:
         """Parses a PVL Sequence.
@@ -816,7 +821,14 @@ class ODLParser(PVLParser):
         can be represented as a Python ``set`` (unlike PVL Sets,
         which must be represented as a Python ``frozenset`` objects).
         """
-        return set(self._parse_set_seq(self.grammar.set_delimiters, tokens))
+        members = self._parse_set_seq(self.grammar.set_delimiters, tokens)
+        try:
+            return set(members)
+        except TypeError as err:
+            # e.g. another Set or a Sequence cannot be a member of a set
+            tokens.throw(
+                ValueError, f"An ODL Set contained an unhashable member: {err}"
+            )
 
     def parse_units(self, value, tokens: abc.Generator) -> str:
         """Extends the parent function, since ODL only allows units
